@@ -90,4 +90,9 @@ Definition check : rd verdict :=
   kind <- getz ;;
   if kind =? 1 then check_gather
   else if kind =? 2 then (n <- getz ;; ret (VProp 9 [n]))   (* the registry could not gather the metrics *)
+  else if kind =? 3 then
+    (* the attack command, interrupted: all results written but the one held back were observed
+       by the time the exporter was scraped; a scrape that failed decides nothing *)
+    (n <- getz ;; scraped <- getz ;;
+     ret (if scraped <? 0 then VDontCare else prop_ok 10 ((n - 1 <=? scraped) && (scraped <=? n)) [n; scraped]))
   else fail.
